@@ -541,7 +541,7 @@ theorem foldl_inv {γ : Type} (P : Core → Prop) (f : Core → γ → Core)
   | cons a l ih => simp only [List.foldl_cons]; exact ih _ (hf init a h)
 
 /-- DataNode.UpdateEcShards (full EC heartbeat): the hierarchy and the volume counters stay exact
-    (the EC counter of this operation is covered by the correspondence check only) -/
+    for ANY message (the EC counter needs a well-formed message: `ok_updateEcShards_ec` below) -/
 theorem ok_updateEcShards {c : Core} {N : Nat} {w : Prop} (h : Ok c N w) (s : Nat) (actual : List EcInfo)
     (hc : c.conn s = true) (hs : s < N) :
     Ok (c.updateEcShards s actual).1 N False ∧ Same (c.updateEcShards s actual).1 c := by
